@@ -26,7 +26,8 @@ type fail struct {
 	Case map[string]any `json:"case"`
 }
 
-var variants = []string{"lf", "crlf", "cr", "unbroken", "trimmed", "blanklines", "nofillers", "morefillers"}
+// the 8 layouts of the property and two combinations of them (short lines in front of CR and CRLF terminators)
+var variants = []string{"lf", "crlf", "cr", "unbroken", "trimmed", "blanklines", "nofillers", "morefillers", "cr-trimmed", "crlf-trimmed"}
 
 var nines = strings.Repeat("9", 94)
 
@@ -53,6 +54,14 @@ func layout(lines []string, v string) string {
 	case "trimmed":
 		for _, l := range lines {
 			b.WriteString(strings.TrimRight(l, " ") + "\n")
+		}
+	case "cr-trimmed":
+		for _, l := range lines {
+			b.WriteString(strings.TrimRight(l, " ") + "\r")
+		}
+	case "crlf-trimmed":
+		for _, l := range lines {
+			b.WriteString(strings.TrimRight(l, " ") + "\r\n")
 		}
 	case "blanklines":
 		b.WriteString("\n   \n")
